@@ -192,7 +192,7 @@ macro_rules! dispatch_impl {
             let d = |i: usize| -> usize { c.dims.get(i).copied().unwrap_or(0) };
             let (fam, style) = (c.fam, c.style);
             match c.op {
-                "proj" | "maxu" | "umax" | "fuse" | "fuse_s" | "fuse_ss" | "fold" => {
+                "proj" | "maxu" | "umax" | "fuse" | "fuse_s" | "fuse_ss" | "fold" | "ftree" => {
                     t1!($V, fam, d(0), T, I, match c.op {
                         "proj" => proj::<T, I, $V>(style, x),
                         "maxu" => maxu::<T, I, $V>(style, x),
@@ -200,6 +200,7 @@ macro_rules! dispatch_impl {
                         "fuse" => fuse::<T, I, $V>(style, d(1), d(2) != 0, x),
                         "fuse_s" => fuse_s::<T, I, $V>(style, d(1), x),
                         "fuse_ss" => fuse_ss::<T, I, $V>(style, d(1), x),
+                        "ftree" => ftree::<T, I, $V>(style, d(1), d(2), &c.dims[3..], x),
                         _ => fold::<T, I, $V>(style, d(1), d(2), x),
                     }; 1 A1 NA1, 2 A2 NA2, 3 A3 NA3, 4 A4 NA4)
                 }
